@@ -506,6 +506,10 @@ func (g *gen) writeExprUserDefinedCall(b *buffer, n *a.Expr, depth uint32) error
 	qid := recvTyp.QID()
 	b.printf("%s%s__%s(", g.packagePrefix(qid), qid[1].Str(g.tm), method.Ident().Str(g.tm))
 	if !recvTyp.IsEtcUtilityType() {
+		if (addr != "") && !g.isAddressable(recv) {
+			return fmt.Errorf("cannot generate method call %q: cannot take the address of receiver %q",
+				n.Str(g.tm), recv.Str(g.tm))
+		}
 		b.writes(addr)
 		if err := g.writeExpr(b, recv, false, depth); err != nil {
 			return err
@@ -515,6 +519,32 @@ func (g *gen) writeExprUserDefinedCall(b *buffer, n *a.Expr, depth uint32) error
 		}
 	}
 	return g.writeArgs(b, n.Args(), depth)
+}
+
+// isAddressable returns whether the C expression generated for n is an lvalue:
+// a variable, a field or an element, as opposed to a literal or the result of
+// a call or of an operator.
+func (g *gen) isAddressable(n *a.Expr) bool {
+	switch n.Operator() {
+	case 0:
+		if id := n.Ident(); id.IsLiteral(g.tm) {
+			return false
+		} else if _, ok := g.scalarConstsMap[t.QID{0, id}]; ok {
+			return false
+		}
+		return true
+	case t.IDDot:
+		if n.Ident().IsLiteral(g.tm) {
+			// A qualified status literal, such as base."#bad argument".
+			return false
+		}
+		lhs := n.LHS().AsExpr()
+		return lhs.MType().IsPointerType() || g.isAddressable(lhs)
+	case t.IDOpenBracket:
+		lhs := n.LHS().AsExpr()
+		return lhs.MType().IsEitherSliceType() || g.isAddressable(lhs)
+	}
+	return false
 }
 
 func (g *gen) writeCTypeName(b *buffer, n *a.TypeExpr, varNamePrefix string, varName string) error {
